@@ -327,6 +327,48 @@ def judge(case, d):
     return out
 
 
+def safe_parse(out, md):
+    """filecase.parse_dump, tolerant of a line cut short by a child that died while printing it (ASan report in
+    the middle of a `part` line): the malformed line is dropped, the fault stays recorded."""
+    try:
+        return filecase.parse_dump(out, md)
+    except Exception:
+        lines = [ln for ln in out.lines if not ln.startswith("part ") or (" nvals=" in ln and " vals=" in ln)]
+        d = filecase.parse_dump(lines, md)
+        d.fault = out.fault or {"summary": "driver output malformed (child died while printing)"}
+        return d
+
+
+def dump_many(requests):
+    """Like filecase.dump_many (open + META + DUMP per request, each in its own forked case), with safe_parse."""
+    import os
+    scripts, tmps, mds = [], [], []
+    for (src, mode, verify, batch, md) in requests:
+        s = filecase.Script()
+        tmp = None
+        if mode == "buffer":
+            s.load_image(src)
+            s.open("buffer", verify)
+        else:
+            tmp = filecase.tmppath()
+            Path(tmp).write_bytes(bytes(src))
+            s.open(mode, verify, tmp)
+        s.meta().dump(batch, maxdef=md).close()
+        scripts.append(s)
+        tmps.append(tmp)
+        mds.append(md)
+    try:
+        outs = filecase.run_scripts(scripts)
+    finally:
+        for t in tmps:
+            if t:
+                try:
+                    os.unlink(t)
+                except OSError:
+                    pass
+    return [safe_parse(o, md) for o, md in zip(outs, mds)]
+
+
 def run_files(rep, cases, rng, tier, stats):
     """Read every case in the three modes (one read_batch for everything; a sample again in small batches)."""
     reqs, owners = [], []
@@ -343,7 +385,7 @@ def run_files(rep, cases, rng, tier, stats):
             reqs.append((c.data, mode, False, b, c.maxdef))
             owners.append((k, mode, b))
     t0 = time.time()
-    dumps = filecase.dump_many(reqs)
+    dumps = dump_many(reqs)
     stats["read_seconds"] = round(time.time() - t0, 1)
     stats["reads"] = len(reqs)
     nviol = 0
@@ -415,7 +457,7 @@ def replay_obj(e, quiet=False):
     modes = [e["mode"]] if e.get("mode") else list(MODES)
     obs, rc = [], 0
     for mode in modes:
-        d = filecase.dump(data, mode, e.get("batch", 1 << 20) == 1 << 20, e.get("batch", 1 << 20), e["maxdef"])
+        d = dump_many([(data, mode, e.get("batch", 1 << 20) == 1 << 20, e.get("batch", 1 << 20), e["maxdef"])])[0]
         probs = judge(c, d)
         obs.append(f"{mode}: " + ("; ".join(f"{w}: {x}" for w, x in probs[:3]) if probs else
                                   ("as expected (" + ("open refused" if not d.opened else ", ".join(f"{ch.rg}/{ch.col}:{ch.end}" for ch in d.chunks)) + ")")))
